@@ -355,8 +355,27 @@ func runC13Case(c *RunCtx, cs c13Case) {
 			fail("deleteOnWrongQuery", "%s received a delete event although its query request was not answered notFound", rid)
 		}
 	}
+	// a raw query the gateway has not seen yet joins a normalised query that
+	// has already processed events: the earlier subscribers of that query keep
+	// receiving what is derived for it (convergence is checked at the end)
+	lateRID := ""
+	if s.ok && len(norms) > 0 && (cs.Outcomes[0] == "events" || cs.Outcomes[0] == "collection") {
+		late := norms[0] + "&late"
+		lateRID = "q.items?" + late
+		s.Req(cl, "subscribe."+lateRID, nil)
+		s.Quiesce()
+		answerAccess()
+		s.Quiesce()
+		if r := getFor(late); r != nil {
+			answerGet(r)
+		} else {
+			fail("lateAliasNoGet", "subscription with the new raw query %q was made without a get request", late)
+		}
+		s.Settle()
+		c.Stat("c13_late_alias", 1)
+	}
 	// bounded progress: a probe event afterwards is handled
-	probe := w.MutateQuery("q.items", func(d []Val) []Val { return append(d, P("probe")) })
+	probe := w.MutateQuery("q.items", func(d []Val) []Val { return append([]Val{P("probe")}, d...) /* at the front: every window changes */ })
 	s.Quiesce()
 	alive := 0
 	for i := range norms {
@@ -393,7 +412,10 @@ func runC13Case(c *RunCtx, cs c13Case) {
 		}
 		s.Settle()
 		rc := s.RC(cl)
-		for _, rid := range append(append([]string{}, rids...), intrRID) {
+		for _, rid := range append(append([]string{}, rids...), intrRID, lateRID) {
+			if rid == "" {
+				continue
+			}
 			for n := rc.Direct[rid]; n > 0; n-- {
 				s.Req(cl, "unsubscribe."+rid, nil)
 			}
@@ -587,4 +609,51 @@ func c13HoldLast(c *RunCtx, s *Script, cs c13Case, held string, fail func(sig, f
 		c.Violation(VReport{Prop: prop, Sig: sig, RID: v.RID, Msg: fmt.Sprintf("%+v: %s", cs, v.Msg)})
 	}
 	c.Counters(res.Counters)
+}
+
+// DebugC13 runs one case given as JSON and returns the worker report (debug aid).
+func DebugC13(caseJSON string) *Report {
+	var cs c13Case
+	if err := json.Unmarshal([]byte(caseJSON), &cs); err != nil {
+		return &Report{Notes: []string{err.Error()}}
+	}
+	c := &RunCtx{Prop: "C13", Tier: "quick", Seed: 1, Shards: 1, dset: map[uint64]bool{}, iset: map[uint64]bool{}}
+	c.Rep = &Report{Property: "C13"}
+	runC13Case(c, cs)
+	return c.Rep
+}
+
+// c01QueryCases runs the query-resource cases in which every query request is
+// answered with events or a full collection (the ones that end in a
+// convergence comparison) for the C01 check.
+func c01QueryCases(c *RunCtx) {
+	idx := 0
+	raws := [][]string{{"w=2&a"}, {"w=2&a", "w=2&b"}, {"w=2&a", "w=2"}, {"w=2", "w=3&x"}, {"w=3&x", "w=3&y", "w=2"}}
+	for _, raw := range raws {
+		nn := len(distinctNorm(raw))
+		for _, inflight := range []bool{false, true} {
+			for _, outcome := range []string{"events", "collection"} {
+				for _, mut := range []string{"prepend", "remove0", "append"} {
+					for _, intr := range []string{"none", "subscribe", "queryevent"} {
+						idx++
+						if !c.Mine(idx) {
+							continue
+						}
+						cs := c13Case{Raw: raw, InFlight: inflight, Intrude: intr, Mutation: mut}
+						for i := range raw {
+							cs.GetOrder = append(cs.GetOrder, len(raw)-1-i)
+						}
+						for i := 0; i < nn; i++ {
+							cs.Outcomes = append(cs.Outcomes, outcome)
+							cs.QOrder = append(cs.QOrder, i)
+						}
+						c.WAL("C01 query case %+v", cs)
+						runC13Case(c, cs)
+						c.Eval(1)
+						c.Stat("c01_query_cases", 1)
+					}
+				}
+			}
+		}
+	}
 }
